@@ -8,6 +8,10 @@ environment may answer in more than one way calls ``ctx.choose(label, n, default
 from collections import deque
 
 
+class HarnessBug(BaseException):
+    """The reference world itself failed (not an I/O error it models): must never be swallowed by the library's except clauses."""
+
+
 class BudgetExceeded(BaseException):
     """Raised by fakes when a step budget is exhausted (non-termination detector).
 
